@@ -152,8 +152,37 @@ def _known_sigs(pid):
     }
 
 
+_PROGRESS = {'fd': None}
+
+
+def _progress_path(pid, subname, shard):
+    d = os.path.join(VERIF, '.work', 'progress')
+    os.makedirs(d, exist_ok=True)
+    return os.path.join(d, f'{pid}-{subname}-{shard}.json')
+
+
+def _cpu_ticks(procid):
+    try:
+        with open(f'/proc/{procid}/stat') as f:
+            parts = f.read().rsplit(')', 1)[1].split()
+        return (int(parts[11]) + int(parts[12])) / os.sysconf('SC_CLK_TCK')
+    except (OSError, ValueError, IndexError):
+        return None
+
+
+def _note_progress(case):
+    fd = _PROGRESS['fd']
+    if fd is None:
+        return
+    data = json.dumps({'t': time.time(), 'cpu': _cpu_ticks(os.getpid()), 'pid': os.getpid(), 'case': case}, default=repr).encode()
+    os.lseek(fd, 0, os.SEEK_SET)
+    os.ftruncate(fd, 0)
+    os.write(fd, data)
+
+
 def _run_case(sub, case, ctx, known):
     """Returns None, or ('known', sig) / raises Violation for unknown ones."""
+    _note_progress(case)
     try:
         sub.check(case, ctx)
     except Violation as v:
@@ -179,6 +208,10 @@ def _shard_worker(args):
     skipped = 0
     t0 = time.time()
     budget = sub.budget[tier] * float(os.environ.get('VERIF_BUDGET_SCALE', '1'))
+    ppath = None
+    if getattr(mod, 'HANG_WATCH', None):
+        ppath = _progress_path(pid, sub.name, shard)
+        _PROGRESS['fd'] = os.open(ppath, os.O_CREAT | os.O_RDWR | os.O_TRUNC, 0o644)
     try:
         if sub.enumerate is not None:
             for i, case in enumerate(sub.enumerate(tier)):
@@ -251,6 +284,13 @@ def _shard_worker(args):
         harness = str(e)
     except Exception:  # noqa: BLE001
         harness = traceback.format_exc()
+    if ppath is not None:
+        os.close(_PROGRESS['fd'])
+        _PROGRESS['fd'] = None
+        try:
+            os.unlink(ppath)
+        except OSError:
+            pass
     return {
         'sub': sub.name,
         'shard': shard,
@@ -277,6 +317,60 @@ def _write_replay(pid, subname, case, sig, msg, where='found'):
     return path
 
 
+def run_single(mod, sub, case, ctx):
+    """One case outside the sharded search.  Modules that set HANG_WATCH (seconds) get it run in a forked child that is
+    killed when it is still busy after that time: the case is then reported as Violation('hang:cpu-bound')."""
+    limit = getattr(mod, 'HANG_WATCH', None)
+    if not limit:
+        sub.check(case, ctx)
+        return
+    r, w = os.pipe()
+    child = os.fork()
+    if child == 0:
+        os.close(r)
+        try:
+            try:
+                sub.check(case, ctx)
+                out = None
+            except Violation as v:
+                out = ('violation', v.sig, v.msg)
+            except BaseException:  # noqa: BLE001
+                out = ('harness', traceback.format_exc(), '')
+            os.write(w, json.dumps(out).encode())
+        finally:
+            os._exit(0)
+    os.close(w)
+    t0 = time.time()
+    data = b''
+    import select
+
+    while True:
+        left = limit * 3 - (time.time() - t0)
+        if left <= 0:
+            break
+        if select.select([r], [], [], min(left, 0.5))[0]:
+            chunk = os.read(r, 1 << 16)
+            if not chunk:
+                break
+            data += chunk
+        elif time.time() - t0 > limit and (_cpu_ticks(child) or 0) > 0.5 * limit:
+            break
+    os.close(r)
+    done = os.waitpid(child, os.WNOHANG)[0] != 0
+    if not done:
+        busy = _cpu_ticks(child) or 0
+        os.kill(child, 9)
+        os.waitpid(child, 0)
+        if not data:
+            raise Violation('hang:cpu-bound', f'still busy after {time.time() - t0:.0f}s ({busy:.0f}s CPU)')
+    out = json.loads(data.decode()) if data else None
+    if out is None:
+        return
+    if out[0] == 'violation':
+        raise Violation(out[1], out[2])
+    raise RuntimeError(out[1])
+
+
 def replay_file(mod, path, quiet=False):
     with open(path) as f:
         body = json.load(f)
@@ -284,7 +378,7 @@ def replay_file(mod, path, quiet=False):
     ctx = Ctx(mod.PROPERTY, 'quick', 0)
     ctx.sub = sub.name
     try:
-        sub.check(body['case'], ctx)
+        run_single(mod, sub, body['case'], ctx)
     except Violation as v:
         return v
     return None
@@ -316,7 +410,7 @@ def run_check(modname, tier, seed, only_sub=None):
         ctx = Ctx(pid, tier, seed)
         ctx.sub = sub.name
         try:
-            sub.check(w['case'], ctx)
+            run_single(mod, sub, w['case'], ctx)
             res = None
         except Violation as v:
             res = v
@@ -363,9 +457,50 @@ def run_check(modname, tier, seed, only_sub=None):
     results = []
     if jobs:
         mpctx = multiprocessing.get_context('fork')
+        watch = getattr(mod, 'HANG_WATCH', None)
+        hung = {}
         with mpctx.Pool(min(nproc, len(jobs))) as pool:
-            for r in pool.imap_unordered(_shard_worker, jobs):
-                results.append(r)
+            pending = {j: pool.apply_async(_shard_worker, (j,)) for j in jobs}
+            deadline = {j: None for j in jobs}
+            while pending:
+                for j, ar in list(pending.items()):
+                    if ar.ready():
+                        results.append(ar.get())
+                        del pending[j]
+                if not pending:
+                    break
+                time.sleep(0.2)
+                if not watch:
+                    continue
+                for j in list(pending):
+                    pp = _progress_path(pid, j[1], j[4])
+                    try:
+                        with open(pp) as fh:
+                            prog = json.loads(fh.read() or 'null')
+                    except (OSError, ValueError):
+                        continue
+                    if not prog or time.time() - prog['t'] < watch:
+                        continue
+                    busy = (_cpu_ticks(prog['pid']) or 0) - (prog.get('cpu') or 0)
+                    elapsed = time.time() - prog['t']
+                    if busy >= 0.5 * watch:
+                        # the worker has been computing on this one case all the time: a hang by the standard of this check
+                        hung[j] = (prog['case'], f'still busy after {elapsed:.0f}s wall / {busy:.0f}s CPU on one case')
+                        try:
+                            os.kill(prog['pid'], 9)
+                        except OSError:
+                            pass
+                        del pending[j]
+                        try:
+                            os.unlink(pp)
+                        except OSError:
+                            pass
+                    elif elapsed > 20 * watch:
+                        harness_errors.append(f'{j[1]} shard {j[4]}: no progress for {elapsed:.0f}s without using the CPU (starved?)')
+                        del pending[j]
+            pool.terminate()
+        for j, (case, msg) in hung.items():
+            violations.append((j[1], case, 'hang:cpu-bound', msg))
     results.sort(key=lambda r: (r['sub'], r['shard']))
 
     evals = 0
